@@ -161,7 +161,115 @@ def final_check(h, seed, L):
     return out, fail
 
 
+# ------------------------------------------------------------------ every op of the catalogues as the consumer of a cleared intermediate
+# a = x0 * 1.0 is shared by two graphs: L1 = (a * 3).sum() and L2 = f(a, other operands...) for every case f of the op catalogue and every
+# nnet call; L1.backward() clears a; L2.backward() must raise InvalidBackprop or leave in x0.grad the derivative of L2 as recorded
+_CATC = {}
+
+
+def cat_cells():
+    from specs import nnet_calls, ops
+
+    if "ops" not in _CATC:
+        out = []
+        seen = set()
+        for i, c in enumerate(ops.all_cases("quick")):
+            if c.get("mask") is not None or c.get("conv") or c.get("dtype") or c.get("sweep") or c.get("zero_where_input_zero") or c.get("gones"):
+                continue
+            if any(k != "t" for k in (c.get("kinds") or ())) or any(a.size == 0 for a in c["operands"]):
+                continue
+            key = (c["op"], tuple(a.shape for a in c["operands"]))
+            if key in seen:
+                continue
+            seen.add(key)
+            out.append(("op", i, c["name"]))
+        _CATC["ops"] = out + [("nnet", n, "") for n in nnet_calls.NAMES]
+        _CATC["cases"] = list(ops.all_cases("quick"))
+    return _CATC["ops"]
+
+
+def check_cat(cell):
+    import mygrad as mg
+    from harness import C02
+    from specs import nnet_calls
+
+    base.reset_mygrad()
+    cat_cells()
+    if cell[0] == "op":
+        case = _CATC["cases"][cell[1]]
+        if case["name"] != cell[2]:
+            return ("harness", "catalogue enumeration is not deterministic")
+        arrays = [np.array(a, dtype=np.float64) for a in case["operands"]]
+        x0 = mg.tensor(arrays[0].copy())
+        a = x0 * 1.0
+        rest = [mg.tensor(v.copy()) for v in arrays[1:]]
+        f = lambda first: case["mg"](first, *rest)  # noqa: E731
+        shadow = lambda v: case["shadow"](v, *arrays[1:])  # noqa: E731
+    else:
+        ins, fn = nnet_calls.catalogue()[cell[1]]("float64")
+        names = list(ins)
+        x0 = mg.tensor(ins[names[0]].data.copy())
+        a = x0 * 1.0
+        rest = [ins[n] for n in names[1:]]
+        f = lambda first: fn(first, *rest)  # noqa: E731
+        shadow = None
+    try:
+        L2 = f(a)
+    except Exception as e:
+        del e
+        return ("skip", "forward raised")
+    if not isinstance(L2, mg.Tensor) or L2.constant:
+        return ("skip", "constant result")
+    L1 = (a * 3.0).sum()
+    L1.backward()
+    stale = None if x0.grad is None else x0.grad.copy()
+    for attempt in (0, 1):
+        try:
+            L2.backward()
+        except Exception as e:
+            eb = base.exc_brief(e)
+            del e
+            if eb[0] == "InvalidBackprop":
+                continue
+            return ("exception", "L2.backward() raised %s: %s" % eb)
+        # it returned: the gradient of x0 must be that of L2 as recorded
+        if shadow is None:
+            return ("silent", "L2.backward() returned although the shared intermediate had been cleared (attempt %d); x0.grad = %s" % (attempt + 1, x0.grad))
+        with np.errstate(all="ignore"):
+            ref = np.asarray(shadow(arrays[0]))
+        exp = C02.cs_expected(lambda v: shadow(v), [arrays[0]], 0, np.ones(np.shape(ref)))
+        if x0.grad is None or not C02.compare(x0.grad, exp, 2e-8):
+            return ("silent_wrong", "L2.backward() returned (attempt %d) with x0.grad %s; d sum(L2)/d x0 as recorded is %s (gradient left by L1: %s)" % (attempt + 1, None if x0.grad is None else explore.fmt(x0.grad), explore.fmt(exp), None if stale is None else explore.fmt(stale)))
+        return None
+    return None
+
+
+def run_cat_task(task):
+    _, stride, offset = task
+    acc = base.Acc()
+    cells = cat_cells()
+    for k in range(offset, len(cells), stride):
+        r = check_cat(cells[k])
+        acc.inc("evaluations")
+        if r is not None and r[0] == "skip":
+            acc.outcome("skip: " + r[1])
+            continue
+        acc.inc("traces")
+        acc.inc("transitions")
+        acc.inc("final_backwards")
+        acc.states.add(hash(("cat", k)))
+        acc.nontrivial.add(base.stable_hash(("cat", cells[k])))
+        if r is not None:
+            acc.violation({"case": {"cat": list(cells[k]), "history": [], "L": None}, "failure": (2, ("backward", "L2"), r[0], "x0", r[1])})
+            acc.outcome("final:catalogue:" + r[0])
+        else:
+            acc.outcome("final:catalogue:InvalidBackprop or exact")
+    return acc
+
+
 def run_task(task):
+    if task[0] == "cat":
+        return run_cat_task(task)
     cfgname, prefix, depth, seed = task
     cfg = CFGS[cfgname]
     acc = base.Acc()
@@ -219,12 +327,14 @@ def plan(tier, seed):
         tasks += [(cfgname, p, depth, seed) for p in pre]
         tasks += [(cfgname, [], 0, seed)] + [(cfgname, [st], 1, seed) for st in enabled(Model(INIT, seed=seed), cfg, "t0")]
     cfg, depth = CFGS[BOUNDS[tier][-1][0]], BOUNDS[tier][-1][1]
+    tasks += [("cat", 16, o) for o in range(16)]
     return dict(
         tasks=tasks,
         run=run_task,
         rule="all statement sequences up to the depth bound over {new op on live tensors, in-place update, backward/clear_graph "
         "on any live tensor, statements that raise (failed op / failed in-place update), ops through transient views, direct writes by the caller}; every history containing a clear event is closed by L.backward() for every live L on a fresh replay (retried once after an InvalidBackprop: the error must repeat); "
-        "non-trivial = history with a clear event and an in-place update",
+        "non-trivial = history with a clear event and an in-place update; plus every op of the catalogues (one case per op and operand-shape pattern, and every "
+        "nnet call) as the consumer L2 of an intermediate shared with a graph that is back-propagated first",
         bounds={name: {"depth": d, "alphabet": CFGS[name]} for name, d in BOUNDS[tier]},
         assumptions=[
             "one leaf x:(2,), no held views, only transient ones `x[:1]` (across graph epochs a cleared view's relation to its base is not defined by the property)",
@@ -248,6 +358,10 @@ def _fails(h, seed, L):
 
 
 def replay(case):
+    if case.get("cat"):
+        c = case["cat"]
+        r = check_cat((c[0], c[1], c[2]))
+        return [dict(failure=(2, ("backward", "L2"), r[0], "x0", r[1]))] if r is not None and r[0] != "skip" else []
     h = [tuplify(s) for s in case["history"]]
     f = _fails(h, case.get("seed", 0), case.get("L"))
     return [dict(failure=f)] if f is not None else []
@@ -257,6 +371,15 @@ def finalize(v):
     import harness.C04 as C04
 
     case = v["case"]
+    if case.get("cat"):
+        r = replay(case)
+        if not r:
+            return None
+        f = r[0]["failure"]
+        c = case["cat"]
+        return dict(case=case, failure=dict(kind=f[2], detail=f[4]), min_history=[],
+                    script="# x0 = mg.tensor(...); a = x0 * 1.0; L1 = (a * 3).sum(); L2 = <catalogue case %r>(a, ...); L1.backward(); L2.backward()\n# %s: %s\n" % (c[2] or c[1], f[2], f[4]),
+                    signature=base.stable_hash(("cat", str(c[2] or c[1]).split("(")[0].split(" ")[0], f[2])))
     seed, L = case.get("seed", 0), case.get("L")
     h = [tuplify(s) for s in case["history"]]
     f0 = _fails(h, seed, L)
